@@ -213,3 +213,17 @@ Example C19_witness_lookup :
   c_cache c <> [] /\ snd (adapter_hook ul call c 1 o (NStr 1)) = RVal 7000 /\
   snd (queryMultiAdapter ul call c [o] 1 (NStr 1)) = RVal 7000.
 Proof. vm_compute. repeat split; try reflexivity. discriminate. Qed.
+
+(* hypotheses of C19_super_without_remainder_raises and C19_super_ignores_instance_declarations:
+   ``object`` has no remainder; a second world with other direct declarations gives the same
+   non-trivial proxy answer although the instances themselves provide different things *)
+Definition ex_E2 : env :=
+  mkEnv (e_cg ex_E) (e_ig ex_E) [(5, []); (5, [1; 2])].
+
+Example C19_witness_direct :
+  rest_after 0 [5; 3; 4; 1; 2; 0] = [] /\
+  e_cg ex_E = e_cg ex_E2 /\ e_ig ex_E = e_ig ex_E2 /\ obj_cls ex_E 0 = obj_cls ex_E2 0 /\
+  option_map (sort_set 5) (answer true ex_E (final true ex_E ex_ops) (ASuper 5 0)) = Some [0; 1; 2; 3] /\
+  answer true ex_E2 (final true ex_E2 ex_ops) (ASuper 5 0) = answer true ex_E (final true ex_E ex_ops) (ASuper 5 0) /\
+  answer true ex_E (final true ex_E ex_ops) (AObj 0) <> answer true ex_E2 (final true ex_E2 ex_ops) (AObj 0).
+Proof. vm_compute. repeat split; try reflexivity. discriminate. Qed.
